@@ -31,7 +31,9 @@ def run(tier, seed):
         u = gen.U()
         n = 3 if rng.random() < 0.25 else 2
         macros = {}
+        gen.NAMES = gen.NEAR_PREDEFINED if rng.random() < 0.25 else ["A", "B", "C"]      # user macros named like the predefined coverage constants
         fs = [gen.mixed_program(rng, u, allow_pos=False, macros=macros, size=rng.randint(1, 7)) for _ in range(n)]
+        gen.NAMES = ["A", "B", "C"]
         predef = []
         if rng.random() < 0.4:
             predef.append(pp.predef_entry("C", none=rng.random() < 0.5, body=[pp.bt("lit", "cv")]))
